@@ -49,21 +49,26 @@ type vItem struct {
 type vReader struct {
 	ch     chan vItem
 	sticky error
+	rest   *vItem /* what did not fit into the caller's buffer: returned by the next Read, before anything queued later */
 }
 
 func (r *vReader) Read(p []byte) (int, error) {
 	if nil != r.sticky {
 		return 0, r.sticky
 	}
-	it, ok := <-r.ch
-	if !ok {
-		r.sticky = io.EOF
-		return 0, io.EOF
+	var it vItem
+	if nil != r.rest {
+		it, r.rest = *r.rest, nil
+	} else {
+		var ok bool
+		if it, ok = <-r.ch; !ok {
+			r.sticky = io.EOF
+			return 0, io.EOF
+		}
 	}
 	n := copy(p, it.data)
 	if n < len(it.data) { /* More than the buffer holds: keep the rest. */
-		rest := vItem{data: it.data[n:], err: it.err}
-		go func() { r.ch <- rest }()
+		r.rest = &vItem{data: it.data[n:], err: it.err}
 		return n, nil
 	}
 	if nil != it.err {
